@@ -368,7 +368,7 @@ class DomainDefinition:
                             ind[(vecax+1) % 2] = i
                             vec_to_write = vec[tuple(ind)].astype(np.float32)
                         else:
-                            vec_to_write = vec.astype(np.float32)
+                            vec_to_write = vec.astype(np.float32).ravel()
 
                         if pad_to_vector:
                             vec_pad = np.zeros(3*self.nnodes, dtype=np.float32)
